@@ -63,14 +63,23 @@ func UpstreamSchema(sdl string) string {
 	}
 	body := sb.String()
 	var hdr strings.Builder
-	if strings.Contains(body, "type Query") {
-		hdr.WriteString("schema {\n  query: Query\n}\n\n")
+	hasQ, hasM := strings.Contains(body, "type Query"), strings.Contains(body, "type Mutation")
+	if hasQ || hasM {
+		hdr.WriteString("schema {\n")
+		if hasQ {
+			hdr.WriteString("  query: Query\n")
+		}
+		if hasM {
+			hdr.WriteString("  mutation: Mutation\n")
+		}
+		hdr.WriteString("}\n\n")
 	}
 	hdr.WriteString("directive @external on FIELD_DEFINITION | OBJECT\n\n")
 	hdr.WriteString("directive @key(fields: openfed__FieldSet!, resolvable: Boolean = true) repeatable on INTERFACE | OBJECT\n\n")
 	hdr.WriteString("directive @provides(fields: openfed__FieldSet!) on FIELD_DEFINITION\n\n")
 	hdr.WriteString("directive @requires(fields: openfed__FieldSet!) on FIELD_DEFINITION\n\n")
 	hdr.WriteString("directive @shareable on FIELD_DEFINITION | OBJECT\n\n")
+	hdr.WriteString("directive @inaccessible on ARGUMENT_DEFINITION | ENUM | ENUM_VALUE | FIELD_DEFINITION | INPUT_FIELD_DEFINITION | INPUT_OBJECT | INTERFACE | OBJECT | SCALAR | UNION\n\n")
 	return hdr.String() + body + "\nscalar openfed__FieldSet\n"
 }
 
